@@ -685,7 +685,8 @@ pub fn random_header(rng: &mut Rng, dxgi: &[u32]) -> Header {
         let caps2 = match rng.below(6) {
             0 => 0x200000,
             1 => 0xFE00,
-            2 => 0x200 | ((rng.below(64) as u32) << 10),
+            // a cube map with one of the 63 non-empty face sets (the flag without any face is covered by the raw cases)
+            2 => 0x200 | ((rng.range(1, 63) as u32) << 10),
             _ => 0,
         };
         Header::Dx9(Dx9Header {
